@@ -75,21 +75,26 @@ def gen_cases(rng, tier):
     # the same searches under options.lsb0 (positions counted from the other end; the chunked scan from the end backwards for long data)
     for i in range(120 if tier == 'quick' else 2500):
         n = rand_len(rng, tier)
-        if i % 20 == 0: n = rng.choice([8200, 8300, 9000] if tier == 'quick' else [8193, 8200, 9000, 16390, 16500, 20000])
-        pl = rng.choice([1, 2, 3, 4, 8, 8, 16, 5, 13])
+        if i % 15 == 0: n = rng.choice([8300, 8400, 9000] if tier == 'quick' else [8300, 9000, 16390, 16500, 20000])
+        pl = rng.choice([1, 2, 3, 4, 8, 8, 16, 5, 13]) if i % 15 else rng.choice([3, 4, 8, 5, 13])
         pat = rand_bits(rng, pl, rng.choice(['rand', 'rand', 'ones', 'periodic']))
         data = rand_bits(rng, n, rng.choice(['rand', 'sparse', 'zeros', 'periodic'])) if n <= 3000 else '0' * n
         data = plant(rng, data, pat, rng.randrange(1, 5))
+        a, b = rand_window(rng, len(data)) if i % 3 else (None, None)
         if n > 8192 and pat:
+            # the scan works in chunks counted from the START of the lsb0 window: occurrences around every chunk edge
+            a = rng.choice([None, None, 0, 5, 100]); b = None
+            a0 = a or 0
+            inc = max(8192, 80 * pl)
             l = list(data)
-            for b in range(8192, n, 8192):
-                for p_ in rng.sample([b - pl - 1, b - pl, b - pl + 1, b - 1, b, b + 1, b + 2], 2):
+            for edge in range(a0 + inc, n, inc):
+                for p_ in rng.sample([edge - pl - 1, edge - pl, edge - pl + 1, edge - 1, edge, edge + 1, edge + 2], 3):
                     m = n - p_ - pl
                     if 0 <= m and m + pl <= n: l[m:m + pl] = list(pat)
             data = ''.join(l)
-        a, b = rand_window(rng, len(data)) if i % 3 else (None, None)
-        yield {'op': rng.choice(['find', 'rfind', 'findall', 'findall', 'contains']), 'cls': rng.choice(CLASSES), 'data': data, 'pat': pat, 'start': a, 'end': b,
-               'ba': rng.choice([None, False, True]), 'opt_ba': False, 'ptype': 'bits', 'count': rng.choice([None, None, 1, 2, 5]), 'lsb0': True}
+        long_ = n > 8192
+        yield {'op': 'findall' if long_ else rng.choice(['find', 'rfind', 'findall', 'findall', 'contains']), 'cls': rng.choice(CLASSES), 'data': data, 'pat': pat, 'start': a, 'end': b,
+               'ba': False if long_ else rng.choice([None, False, True]), 'opt_ba': False, 'ptype': 'bits', 'count': None if long_ else rng.choice([None, None, 1, 2, 5]), 'lsb0': True}
     if tier == 'thorough':
         for n in range(0, 9):
             for v in range(1 << n):
